@@ -178,12 +178,15 @@ def number(ctx, terminator=never):
     # TODO: Macro-11 supports ^F... for floating-point numbers, no idea how the format looks like
     # TODO: Macro-11 supports ^P for psect limits, whatever that means
 
+    # A negative literal starts at its minus sign
+    ctx.skip_whitespace()
+    ctx_start = ctx.save()
+
     negative = minus(ctx, maybe=True)
     sign = -1 if negative else 1
     sign_str = "-" if negative else ""
 
     ctx.skip_whitespace()
-    ctx_start = ctx.save()
 
     # Macro-11-style numbers
     for prefix, adjective, digit_regex, base in (
